@@ -71,6 +71,8 @@ pub fn apply_ufn_san(inner: Inner, f: UFn, v: &Val) -> Val {
         (Inner::F64, UFn::Clamp01) | (Inner::F64, UFn::CClamp01) => Val::f64(ulib::clamp_0_1(v.as_f64())),
         (Inner::F32, UFn::AbsF) => Val::f32(ulib::abs_f(v.as_f32())),
         (Inner::F64, UFn::AbsF) => Val::f64(ulib::abs_f(v.as_f64())),
+        (Inner::F32, UFn::Recip) => Val::f32(ulib::recip(v.as_f32())),
+        (Inner::F64, UFn::Recip) => Val::f64(ulib::recip(v.as_f64())),
         (Inner::F32, UFn::NanToZero) => Val::f32(ulib::nan_to_zero(v.as_f32())),
         (Inner::F64, UFn::NanToZero) => Val::f64(ulib::nan_to_zero(v.as_f64())),
         (Inner::Str, UFn::StripX) | (Inner::Cow, UFn::StripX) => Val::S(ulib::strip_x(v.as_str().to_string())),
@@ -182,6 +184,7 @@ fn re_for(r: Re) -> &'static regex::Regex {
     match r {
         Re::Digits => &ulib::RE_DIGITS,
         Re::Lower => &ulib::RE_LOWER,
+        Re::HasDigit => &ulib::RE_HASDIGIT,
     }
 }
 
